@@ -284,7 +284,7 @@ func (r *Run) Report(outDir string, known []KnownFinding, info PropInfo, seed in
 	ev := evidence{
 		PropertyID: r.Prop, Tier: r.Tier, Seed: seed, Level: "other",
 		Coverage: map[string]any{
-			"explanation":            info.Explanation,
+			"explanation":            info.Explanation + sessionTwo[info.ID],
 			"rule":                   "one obligation per (rule, construct) instance found on the current tree; an instance is non-trivial when the rule's premise matched a construct of /repo (anchors resolved) and distinct when its (rule, construct-key) pair differs",
 			"obligations":            len(r.Obls),
 			"discharged":             discharged,
@@ -337,4 +337,27 @@ func loadKnown(path string) ([]KnownFinding, error) {
 		return nil, err
 	}
 	return doc.Findings, nil
+}
+
+// sessionTwo: clauses added in session 2 (DESIGN.md section 4 marks them "round-3 seed", "mutation sweep" or D31–D42).
+var sessionTwo = map[string]string{
+	"C01": " Added in session 2: the plan executes under a context detached from the caller of Start (R2).",
+	"C02": " Added in session 2: no function but a constructor assigns a field of the sm.States / actions.Runner value all plans share (R5); the plugin gets the timeout context of run() (R6).",
+	"C03": " Added in session 2: finished sequences are never launched again, so a failure stored before a restart is counted once (R2); fixPlan classifies each block by its status after fixBlock (R4); a passing continuous-check result never waits for a reader (R5).",
+	"C04": " Added in session 2: examineChecks scans every group (assume-and-refute per iteration, R5); routing in the verdict machine follows the examined facts and only `end` stops without an error (R6); the result channels are made before any state uses them (R4); (R8) whoever assigns a terminal status stamps State.End or delegates to BlockEnd/End, which stamp on every exit.",
+	"C05": " Added in session 2: the result channel is made by run() for that invocation (R4); (R7) recovery never leaves an action with a finished last attempt Running.",
+	"C06": " Added in session 2: a present bypass group is evaluated unless already Failed (R1); examineBypasses is true exactly for present∧Completed (R3); a recovered scope whose PreChecks are Completed still gets the first ContChecks run, and a gate durably Failed at the crash fails the scope in fixBlock/fixPlan (R4).",
+	"C07": " Added in session 2: only failed results must be delivered (with a send that cannot be skipped), passing ones never wait for a reader, a failed run does not go round the loop again (R1); (R6) once fixPlan assigned Failed nothing later on the path gives the plan another status.",
+	"C08": " Added in session 2 (R1): a plan state that marks the plan or head block Running writes it before returning, and Start / ExecuteBlock / execSeq mark their object Running before the work starts.",
+	"C09": " Added in session 2: skipBlock answers true exactly for a block whose own status is terminal (R1); fixPlan/fixBlock/fixSeq classify each child after repairing it (R2).",
+	"C10": " Added in session 2: no vault call from inside a loop consuming a vault stream (R1); End stores the plan after its children, failure verdicts of fix* are sticky, children are classified after repair, the cont-check channels are made on the Recovery path, BlockPostChecks/BlockDeferredChecks never pass over a present group that is already Failed (R3).",
+	"C11": " Added in session 2: the stale plan is written after everything it contains (R3).",
+	"C12": " Added in session 2: the job that runs the plan is submitted under a context made in runPlan and a refused Start reaches no mutating vault method (R1); the walkers never hand a nil child on (R4); (R7) nil-then-dereference contradiction rule and index-past-end lint over every package the five API calls reach.",
+	"C13": " Added in session 2: a stored cosmos document is decoded into a value made for that call (R6); (R8) the create transaction watches the error Create returns.",
+	"C14": " Added in session 2: when the transaction watches a variable that is not the named result every return after the registration returns it (R1); no retry operation adds to, or hands on by address, a batch made outside it (R5).",
+	"C15": " Added in session 2 (R5): a cosmos retry operation uses the context its loop runs under; cosmosdb.New assigns a component's swarm before copying the component.",
+	"C16": " Added in session 2 (R1): request defaults precede Validate; an action arriving with a register is refused at once.",
+	"C17": " Added in session 2 (R1): an embedded struct is examined whatever the name of its type; a struct value is exempted from scrubbing only by the time.Time test, applied to the dispatched value.",
+	"C18": " Added in session 2: append counts as a copy only with a destination that cannot lend its array (R2); (R5) the time.Time exemption of the scrub pass tests the dispatched value.",
+	"C20": " Added in session 2 (R1): every error Plan() hands out, and every error Reset() hands out after touching the builder, is b.err or the result of setErr.",
 }
